@@ -27,6 +27,8 @@ package redisemu
 //@ ensures [C12] one.post: gPosted <= 1 && (gPosted == 1) == (wasBlocked && old(cs.unblockPending) == 0)
 //@ ensures [C12] pending: wasBlocked ==> cs.unblockPending != 0
 //@ ensures [C12] word.restored: cs.blocked == old(cs.blocked)
+// CS_CHECKING marks the word as taken by one checker: only the checker that swapped something else out may write the word back (two checkers restoring at once left it CS_CHECKING forever: repaired)
+//@ assertbefore "atomic.S" [C12,C13,C20] word.owner.only: locked != CS_CHECKING
 //@ ensures counted: gUnblockCalls == old(gUnblockCalls) + 1
 
 //@ func fnClientUnblock
@@ -67,8 +69,8 @@ package redisemu
 //@ loop 1 invariant [C11] looked.after.queueing: gLookedSinceQueued
 // C12: between capturing the connection and waiting, the closing flag is looked at: a close requested earlier posted nothing (there was nothing to unblock), one requested later finds the client captured
 //@ ghostafter "unblockCh := ctx.cs.capture()" : gClosingSeenAfterCapture = false
-//@ assertbefore "return false" [C12] closing.checked.before.wait: gClosingSeenAfterCapture
-//@ assertbefore "return true" [C12] closing.checked.before.abort: gClosingSeenAfterCapture
+//@ assertbefore "return false" [C12,C20] closing.checked.before.wait: gClosingSeenAfterCapture
+//@ assertbefore "return true" [C12,C20] closing.checked.before.abort: gClosingSeenAfterCapture
 //@ loop 1 invariant !held && ws != nil && !ctx.multi
 //@ assertbefore "ctx.dsc.ds.passWakeUp(ws)" [C11] handon.when.error: istype(output.data, respErrorString)
 //@ ghostafter "ws := blockFn()" : gWaitRegistered = true
